@@ -1,6 +1,5 @@
 import Gen.Enfold
 import Gen.Lemmas
-import Model.Backends
 /-!
 # The translated methods of `EnfoldCache` are the model's `Enfold.step`
 
@@ -48,9 +47,6 @@ theorem gen_enfold_get (cfg : Cfg) (s : EState) (self : V) (u : Uid) :
   unfold get_EnfoldCache W0 EOutcome Enfold.step
   simp only [pure_ok, stCallM, bindM_ok, evalArgs, storeOpOf, Store.step, pairM]
   cases hc : lookup u s.cache <;> cases hb : lookup u s.backend <;> simp [hb, hc, truth, truthy, uidArg]
-
-theorem cache_ne : ("cache" == "storage") = false := by decide
-theorem storage_eq : ("storage" == "storage") = true := by decide
 
 theorem len_gt_zero (n : Nat) : cmpGt (cInt (n : Int)) (cInt 0) = ofBool (Decidable.decide (0 < n)) := by
   simp only [cmpGt, cmp2, bindM, cInt, pyGt, pyCmp, asNum, numEq, numLt, liftR, Except.map, ofBool]
@@ -136,58 +132,5 @@ theorem gen_enfold_populate (cfg : Cfg) (s : EState) (self : V) (batch : Nat) :
   unfold EOutcome Enfold.step
   simp only []
   rcases feed_out (retrieveAll (listing cfg s.backend) batch) s.cache with h | h <;> simp only [h]
-
-/-! ### `ObservableMutationStorage` -/
-
-/-- the wrapped storage as the abstract store (no client calls recorded) -/
-def absStep (cfg : Cfg) : St → Op → St × Out × List Backends.Call := fun s op => ((Store.step cfg s op).1, (Store.step cfg s op).2, [])
-
-/-- how a method of the observable wrapper ends, against `obsStep`: the wrapped store, the number of notifications, the value -/
-def OOutcome (m : M) (cfg : Cfg) (r : Backends.Obs St × Out × List Backends.Call) : Prop :=
-  match r.2.1 with
-  | .done => m = .ok (.seq [.py .none, .eworld cfg ⟨[], r.1.inner⟩ true r.1.notified Option.none])
-  | .pol Option.none => m = .ok (.seq [.py .none, .eworld cfg ⟨[], r.1.inner⟩ true r.1.notified Option.none])
-  | .pol (some p) => ∃ u, m = .ok (.seq [.polv u p true, .eworld cfg ⟨[], r.1.inner⟩ true r.1.notified Option.none])
-  | .pols l => m = .ok (.seq [.pols l, .eworld cfg ⟨[], r.1.inner⟩ true r.1.notified Option.none])
-  | e => m = .ok (.eworld cfg ⟨[], r.1.inner⟩ true r.1.notified (some e))
-
-def OW (cfg : Cfg) (s : St) (n : Nat) : V := .eworld cfg ⟨[], s⟩ false n Option.none
-
-theorem gen_observable_add (cfg : Cfg) (s : St) (n : Nat) (self : V) (u : Uid) (p : Pol) (ok : Bool) :
-    OOutcome (add_Observable self (.polv u p ok) (OW cfg s n)) cfg
-      (Backends.obsStep (absStep cfg) ⟨s, n⟩ (.add u p ok)) := by
-  unfold add_Observable OW OOutcome Backends.obsStep absStep
-  simp only [pure_ok, stCallM, bindM_ok, evalArgs, storeOpOf, Store.step, pairM, notifyM, storage_eq, if_true, Backends.isMutation]
-  cases ok <;> cases hb : lookup u s <;> simp [hb]
-
-theorem gen_observable_update (cfg : Cfg) (s : St) (n : Nat) (self : V) (u : Uid) (p : Pol) (ok : Bool) :
-    OOutcome (update_Observable self (.polv u p ok) (OW cfg s n)) cfg
-      (Backends.obsStep (absStep cfg) ⟨s, n⟩ (.update u p ok)) := by
-  unfold update_Observable OW OOutcome Backends.obsStep absStep
-  simp only [pure_ok, stCallM, bindM_ok, evalArgs, storeOpOf, Store.step, pairM, notifyM, storage_eq, if_true, Backends.isMutation]
-  cases ok <;> cases he : cfg.eagerConvert <;> cases hb : lookup u s <;> simp [hb, he]
-
-theorem gen_observable_delete (cfg : Cfg) (s : St) (n : Nat) (self : V) (u : Uid) :
-    OOutcome (delete_Observable self (.py (.str u)) (OW cfg s n)) cfg
-      (Backends.obsStep (absStep cfg) ⟨s, n⟩ (.delete u)) := by
-  unfold delete_Observable OW OOutcome Backends.obsStep absStep
-  simp [stCallM, evalArgs, storeOpOf, Store.step, pairM, notifyM, Backends.isMutation]
-
-theorem gen_observable_get (cfg : Cfg) (s : St) (n : Nat) (self : V) (u : Uid) :
-    OOutcome (get_Observable self (.py (.str u)) (OW cfg s n)) cfg
-      (Backends.obsStep (absStep cfg) ⟨s, n⟩ (.get u)) := by
-  unfold get_Observable OW OOutcome Backends.obsStep absStep
-  simp only [pure_ok, stCallM, bindM_ok, evalArgs, storeOpOf, Store.step, pairM, storage_eq, if_true, Backends.isMutation]
-  cases hb : lookup u s <;> simp [hb, uidArg]
-
-theorem gen_observable_get_all (cfg : Cfg) (s : St) (n : Nat) (self : V) (l o : Int) :
-    OOutcome (get_all_Observable self (.py (.int l)) (.py (.int o)) (OW cfg s n)) cfg
-      (Backends.obsStep (absStep cfg) ⟨s, n⟩ (.getAll l o)) := by
-  unfold get_all_Observable OW OOutcome Backends.obsStep absStep
-  simp only [pure_ok, stCallM, bindM_ok, evalArgs, storeOpOf, Store.step, pairM, storage_eq, if_true, Backends.isMutation]
-  by_cases hneg : (l < 0 || o < 0) = true
-  · simp [hneg]
-  · have hneg' : (l < 0 || o < 0) = false := by simpa using hneg
-    simp [hneg']
 
 end Vakt.GenEquiv
